@@ -10,7 +10,7 @@ c11 = importlib.util.module_from_spec(_spec)
 _spec.loader.exec_module(c11)
 
 BINDINGS_Q = [{"filler": 0, "paysz": 0}, {"filler": 60, "paysz": 40}, {"filler": 900, "paysz": 250}, {"filler": 30, "paysz": 5000},
-              {"filler": 40, "paysz": 64000, "paymin": 61000}]
+              {"filler": 40, "paysz": 64000, "paymin": 61000}, {"filler": 500, "paysz": 60, "noabove": True, "alignlast": True, "lastgap": 5}]
 BINDINGS_T = BINDINGS_Q + [{"filler": 8000, "paysz": 80}, {"filler": 300, "paysz": 20000}]
 
 
